@@ -160,33 +160,38 @@ def check(ctx, run):
                what="" if seen == [BLK + SZ] else "the guard bytes are written or checked at offset %s of a %d-byte block" % ([x - BLK if isinstance(x, int) else x for x in seen], SZ))
 
     # ---------------- R3 ----------------------------------------------------
+    from .shared import detector_fold
     dm = [f for f in prog.fns(DET + "::deallocMemory") if len(f.params) == 5][0]
     run.analysed(dm)
-    mp = dm.params[1]["name"]
-    for p in enumerate_paths(dm):
-        val = p.val()
-        names = [(prog.callee_name(dm, c) or "").split("::")[-1] for c in path_calls(prog, dm, p)]
-        why = []
-        if val.get(mp) is False:
-            if names:
-                why.append("releasing NULL does something: %s" % names)
-        else:
-            nd = next((v for k, v in origin_val(dm, p).items() if "removeNode(" in k), None)
-            if names[:1] != ["removeNode"]:
-                why.append("the record is not looked up and removed first")
-            if nd is False:
-                if names.count("reportDeallocateNonAllocatedMemoryFailure") != 1 or "free_memory" in names or "checkForCorruption" in names:
-                    why.append("an unknown address must give exactly one non-allocated report and no free (%s)" % names)
-            elif nd is True:
-                if "reportDeallocateNonAllocatedMemoryFailure" in names:
-                    why.append("a known block is reported as non-allocated")
-                destroyed = [v for k, v in val.items() if k.endswith("hasBeenDestroyed()")]
-                if destroyed == [False]:
-                    if names.count("checkForCorruption") != 1 or names.count("free_memory") != 1 or names.index("checkForCorruption") > names.index("free_memory"):
-                        why.append("known block: checkForCorruption then free_memory once each (%s)" % names)
-            else:
-                why.append("lookup result not tested")
-        run.ob("R3", "deallocMemory [%s]" % short(p.describe(dm), 100), dm.site, not why, witness=names, what="; ".join(why))
+    pn = [q["name"] for q in dm.params]
+    try:
+        for sep in (0, 1):
+            for memory, known, destroyed in ((0, 6000, 0), (50000, 0, 0), (50000, 6000, 0), (50000, 6000, 1)):
+                r, log, ev = detector_fold(prog, dm, dict(zip(pn, (9000, memory, 111000, 77, sep))), {"remove": known, "destroyed": destroyed})
+                kinds = [k for k, a_ in log]
+                why = []
+                if not memory:
+                    if kinds:
+                        why.append("releasing NULL does something: %s" % kinds)
+                else:
+                    if kinds[:1] != ["remove"] or log[0][1][-1] != memory:
+                        why.append("the record is not looked up and removed first")
+                    elif not known:
+                        if kinds.count("reportDeallocateNonAllocatedMemoryFailure") != 1 or "free" in kinds or "valid" in kinds or "matching" in kinds:
+                            why.append("an unknown address must give exactly one non-allocated report and no free (%s)" % kinds)
+                    else:
+                        if "reportDeallocateNonAllocatedMemoryFailure" in kinds:
+                            why.append("a known block is reported as non-allocated")
+                        if not destroyed:
+                            fr = [a_ for k, a_ in log if k == "free"]
+                            if len(fr) != 1 or fr[0][1:3] != (memory, 13) or "valid" not in kinds or kinds.index("valid") > kinds.index("free"):
+                                why.append("known block: the guard bytes are checked, then the block is released once with its recorded size (%s)" % kinds)
+                        elif "free" in kinds:
+                            why.append("memory is handed to an allocator that was already destroyed")
+                run.ob("R3", "deallocMemory folded [%s record, memory %s, block %s%s]" % ("separate" if sep else "inline", "NULL" if not memory else "given", "known" if known else "unknown", ", allocator destroyed" if destroyed else ""),
+                       dm.site, not why, witness=kinds, what="; ".join(why))
+    except Unknown as u:
+        run.broke("C06.R3: deallocMemory cannot be folded: %s" % u)
 
     # ---------------- R4 ----------------------------------------------------
     from .C10 import slot_vars
